@@ -231,6 +231,25 @@ def materialise(desc: dict) -> Built:
     return Built(desc, mod, ns, classes, ns[desc["start"]], field_types)
 
 
+def reordered(desc: dict, rng, move_start: bool = True) -> dict:
+    """The same classes handed to extract_grammar in another ORDER, and (sometimes) entered at a nested abstract
+    class instead of the root: registration order is an input like any other."""
+    if desc.get("python"):
+        return desc
+    d = dict(desc)
+    names = [p["name"] for p in desc["prods"]] + [a["name"] for a in desc["abstracts"]]
+    order = list(desc.get("considered", names))
+    rng.shuffle(order)
+    d["considered"] = order
+    tag = "~o"
+    nested = [a["name"] for a in desc["abstracts"] if a.get("parent") and any(p.get("parent") == a["name"] for p in desc["prods"])]
+    if move_start and nested and rng.random() < 0.5:
+        d["start"] = rng.choice(nested)
+        tag += "s"
+    d["name"] = desc["name"] + tag
+    return d
+
+
 def extract(b: Built):
     from geneticengine.grammar.grammar import extract_grammar
 
